@@ -339,6 +339,30 @@ def run(prog, chk):
                    'after the modifier `%s` the scan continues with the next modifier (the modifiers of a member may come in any order: '
                    '`override virtual` and `virtual override` denote the same member)' % nm.lower(), key='modifier-loop:' + nm)
 
+    # each modifier is recorded in its own flag: the duplicate test of a branch tests the flag that branch sets, and no two
+    # modifiers share a flag (`virtual override` is a valid prefix; `override override` is not)
+    flags_of = {}
+    for nm, cs in sorted(modc.items()):
+        for c in cs:
+            tedge = [x for x in c.succ if x.kind == 'edge' and x.pol][0]
+            region = {n.id for n in gm.nodes if gm.dominates(tedge, n)}
+            sets = [SX.strip(l) for n, l, r, op in gm.writes() if n.id in region and op == '=' and SX.is_node(SX.strip(l)) and SX.strip(l).get('k') in ('ref', 'member')
+                    and SX.is_node(SX.strip(r)) and SX.strip(r).get('k') == 'bool' and SX.strip(r)['v'] is True]
+            tests = []
+            for t in gm.nodes:
+                if t.kind == 'cond' and t.id in region and SX.is_node(t.e) and SX.strip(t.e).get('k') in ('ref', 'member') and 'bool' in (SX.strip(t.e).get('t') or ''):
+                    te = [x for x in t.succ if x.kind == 'edge' and x.pol]
+                    if te and any(gm.nodes[i].kind in ('call', 'throw') and 'rror' in SX.show(gm.nodes[i].e)[:60] for i in gm.reachable(te) & region):
+                        tests.append(SX.strip(t.e))
+            key_ = lambda e_: e_.get('id') or e_.get('q') or SX.show(e_)
+            okf = len(sets) == 1 and bool(tests) and all(key_(t_) == key_(sets[0]) for t_ in tests)
+            chk.ob('R14.5', pcm, c.ln or pcm.ln, okf,
+                   'the `%s` branch rejects a repeated `%s` by testing the flag it sets itself (sets %s, tests %s)' % (
+                       nm.lower(), nm.lower(), [SX.show(x) for x in sets], [SX.show(x) for x in tests]), key='modifier-own-flag:' + nm)
+            if sets:
+                flags_of[nm] = key_(sets[0])
+    chk.ob('R14.5', pcm, pcm.ln, len(set(flags_of.values())) == len(flags_of), 'no two modifiers share a flag (%s)' % flags_of, key='modifier-flags-distinct', nontrivial=False)
+
     # ---- forInit = variableDeclaration | expressionStatement : the for header parses its initialiser with exactly those two
     if 'forInit' in rules and 'expressionStatement' in rules['forInit'] and 'variableDeclaration' in rules['forInit']:
         pf = prog.fn('Parser::parseFor')
